@@ -19,10 +19,11 @@
       MVCC snapshot `snap` taken at its last transaction boundary (`poll_invalidations`);
     * the temporary file of `TmpStore` is the list `entries`, `position` counts entries not bytes.
 
-  Two instrumentation flags record that the run went through a known defect of the code
-  (known_findings.json, property C11); no step ever reads them:
-    d1  a store/serialize failed inside `_store_objects` while new objects were pending (the object
-        being stored is new, or the writer stack is not empty): these keep `_p_oid/_p_jar`;
+  The model is of the code after the repair of `_store_objects` (new objects go to the cache right
+  after they enter `_creating`; objects left on the writer's stack by an error are disowned).
+
+  One instrumentation flag records that the run went through the known open defect of the code
+  (known_findings.json, C11:stored-new-object-ghostified-on-abort); no step ever reads it:
     d2  an object was disowned while it was a ghost (its only state is lost).
 -/
 namespace ZodbModel.Conn
@@ -166,7 +167,6 @@ structure State where
   fail : Fail := .none
   nstores : Nat := 0
   -- instrumentation (never read by a step)
-  d1 : Bool := false
   d2 : Bool := false
 
 def setO (s : State) (i : ObjId) (o : Obj) : State :=
@@ -365,11 +365,12 @@ def isNewObj (s : State) (o : Obj) (k : Oid) : Bool :=
                  | none => true
                  | some flag => flag)
 
-/-- bookkeeping of `_store_objects` before serializing: a new object goes to `_creating` (and leaves
-    `_added`), any other to `_modified` -/
+/-- bookkeeping of `_store_objects` before serializing: a new object goes to `_creating` (leaves
+    `_added`) and at once to the cache, any other to `_modified` -/
 def classify (s : State) (i : ObjId) (k : Oid) : State :=
   if isNewObj s (s.objs i) k then
-    { s with creating := s.creating.set k (!s.added.has k), added := s.added.del k }
+    { s with creating := s.creating.set k (!s.added.has k), added := s.added.del k,
+             cache := s.cache.set k i }
   else { s with modified := s.modified ++ [k] }
 
 /-- `self._storage.store(…)`, then `self._cache[oid] = obj`; a TmpStore returns the serial, which makes
@@ -399,21 +400,24 @@ def storeOne (s : State) (i : ObjId) : (State × Option Err) × List ObjId :=
       let sp := serialize a.1 o.refs
       (storeRec sp.1 i k ⟨o.serial, o.val, o.refs⟩, sp.2)
 
+/-- `del obj._p_jar; del obj._p_oid` of an object left on the writer's stack -/
+def disownPending (s : State) (j : ObjId) : State :=
+  setO s j { s.objs j with oid := none, jar := false }
+
+/-- the `finally` clause of `_store_objects`: what is still on the stack belongs to no database -/
+def dropStack (s : State) (stack : List ObjId) : State := stack.foldl disownPending s
+
 /-- `_store_objects(ObjectWriter(obj))`: drain the writer's stack (head = top).  `fuel` bounds the
-    number of iterations (`Proofs` shows the bound passed by `connCommit` always suffices). -/
+    number of iterations (it is always sufficient: every iteration after the first one stores an
+    object that had no oid before; running out of it counts as an error). -/
 def storeObjects : Nat → State → List ObjId → State × Option Err
   | _, s, [] => (s, none)
-  | 0, s, _ :: _ => ({ s with d1 := true }, some .assertion)
+  | 0, s, i :: rest => (dropStack s (i :: rest), some .assertion)
   | fuel + 1, s, i :: rest =>
-    let new := match (s.objs i).oid with
-               | some k => isNewObj s (s.objs i) k
-               | none => false
     let r := storeOne s i
     match r.1.2 with
     | none => storeObjects fuel r.1.1 (r.2.reverse ++ rest)
-    | some e =>
-      -- instrumentation: the defect situation D1
-      ({ r.1.1 with d1 := r.1.1.d1 || new || !(r.2 ++ rest).isEmpty }, some e)
+    | some e => (dropStack r.1.1 (r.2 ++ rest), some e)
 
 /-- number of allocated objects that have no oid yet (for the fuel) -/
 def countNoOid (s : State) (n : Nat) : Nat :=
@@ -585,7 +589,7 @@ def txnSavepoint (bound : Nat) (s : State) : State × Out :=
     let r := connSavepoint bound s
     match r.2 with
     | some e =>
-      -- `_cleanup` + COMMITFAILED; only reachable after a defect (d1 is set)
+      -- `_cleanup` + COMMITFAILED (an object that lost its state was added again)
       (cleanup false r.1, .failed e)
     | none => ({ r.1 with sps := r.1.sps ++ [spState r.1] }, .ok)
 
